@@ -10,6 +10,9 @@ import (
 
 var intrinsics map[string]externalFn
 
+// Tier is 0 for quick, 1 for thorough (read by harnesses through vTier()).
+var Tier = 0
+
 func init() {
 	intrinsics = map[string]externalFn{
 		"vSymbolic": func(fr *frame, args []value) value { return true },
@@ -41,6 +44,7 @@ func init() {
 			}
 			return nil
 		},
+		"vTier": func(fr *frame, args []value) value { return Tier },
 		"vBudgetHit": nil,
 	}
 	delete(intrinsics, "vBudgetHit")
